@@ -1256,6 +1256,23 @@ theorem C03_integer_with_trailing_garbage_detected {F} (env : Env F) (strict : B
   have h := attr_integer_then_junk env strict a hty hder tok htok hlo hhi j0 js hj0s hj047 hj0d hj hsemi l sk d rest hd
   simpa [List.append_assoc] using h
 
+/-- **a real token with something behind it for a REAL attribute** (`1.5X`, `2.0'a'`: a text that *starts like* a real): the
+    real is stored, what follows it - no digit, `E`, `e`, blank or `/` first, no `,` `)` `;` - is reported: WARNING -/
+theorem C03_real_with_trailing_garbage_detected {F} (env : Env F) (strict : Bool) (a : AttrD) (hty : a.ty = .one .real)
+    (hder : a.derived = false) (hred : a.redefining = false)
+    (tok : List Byte) (dec : Decimal) (v : F) (htok : Grammar.isReal tok = true) (hden : Grammar.denoteReal tok = some dec)
+    (hv : env.ops.ofDecimal dec = some v) (hnn : env.ops.isRealNull v = false)
+    (hbuf : env.lex.realBuf = 0 ∨ tok.length < env.lex.realBuf)
+    (j0 : Byte) (js : List Byte) (hj0s : isSpace j0 = false) (hj047 : j0 ≠ 47) (hj0d : isDigit j0 = false)
+    (hj0e : j0 ≠ 101) (hj0E : j0 ≠ 69)
+    (hj : ∀ b ∈ j0 :: js, delimAt env.lex attrDelims b = false)
+    (hsemi : env.lex.criStopsAtSemicolon = true → ∀ b ∈ j0 :: js, b ≠ 59) (before : List Byte) (hb : Seps before) :
+    ParamRd env strict { a := a, v := .one (.atom (.real v)), tok := tok ++ j0 :: js, before := before, after := [] } .warning := by
+  obtain ⟨c, u, hcu, hcs, _, _, _, h47, h92⟩ := number_head tok (Or.inl htok)
+  refine ⟨hred, ⟨c, u ++ j0 :: js, by rw [hcu]; simp, hcs, h47, h92⟩, hb, fun l sk d rest hd => ⟨sk, Or.inl rfl, ?_⟩⟩
+  have h := attr_real_then_junk env strict a hty hder tok dec v htok hden hv hnn hbuf j0 js hj0s hj047 hj0d hj0e hj0E hj hsemi l sk d rest hd
+  simpa [List.append_assoc] using h
+
 /-- elements that report nothing or WARNING accumulate to WARNING as soon as one of them reports -/
 theorem eaccum_warning (sevs : List Sev) (h : ∀ s ∈ sevs, s = .null ∨ s = .warning) :
     ∀ err : Sev, (err = .null ∨ err = .warning) →
@@ -1430,6 +1447,34 @@ theorem C03_duplicate_id_record_skipped {F} (ops : FloatOps F) (lex : LexCfg) (c
         ∃ l', readInstance ops lex cfg d strict st = .ok { s := G l' rest false }) :=
   ⟨fun m i0 h l rest => createInstance_dup cfg hskip d m r hlex hscan i0 h l rest,
    fun st i0 h hn l rest hs => readInstance_dup ops lex cfg d strict hskip st r hlex hscan l rest hs i0 h hn⟩
+
+/-- **a violation inside a typed select value**: `KEYWORD blanks ( blanks value )` for a select attribute where the keyword
+    names a non-entity member and the value between the parentheses is read with WARNING (`LeafRdS`, e.g.
+    `LeafRdS.integer_junk`: `CNT_T('a')`): the attribute reader returns WARNING with the member chosen and the value unset,
+    and rests at the delimiter (`ParamRd`) - record, file and exit status follow by `C03_violation_confined_partial`. -/
+theorem C03_violation_inside_typed_select_detected {F} (env : Env F) (strict : Bool) (a : AttrD) (n : String)
+    (hty : a.ty = .one (.select n)) (hder : a.derived = false) (hred : a.redefining = false)
+    (hcfg : env.lex.criSkipsComments = true) (sd : SelectD) (hsd : env.dict.select? n = some sd)
+    (m : SelMember) (n0 : Byte) (ns : List Byte) (hn0 : isAlpha n0 = true) (hns : ns.all selc = true)
+    (hfind : sd.members.find? (fun x => x.name == bytesToString (upperBytes (n0 :: ns)) && !x.ty.isEntity) = some m)
+    (tok : List Byte) (av : Atom F) (hleaf : LeafRdS env m tok av .warning) (sA sB : List Byte)
+    (hsA : sA.all isSpace = true) (hsB : sB.all isSpace = true) (before after : List Byte) (hb : Seps before) (ha : Seps after) :
+    ParamRd env strict { a := a, v := .one (.sel m.name av), tok := n0 :: (ns ++ (sA ++ 40 :: (sB ++ (tok ++ [41])))),
+                         before := before, after := after } .warning := by
+  obtain ⟨hn0s, hn047, _, _, _, _, _, _, hn092⟩ := alpha_facts hn0
+  refine ⟨hred, ⟨n0, _, rfl, hn0s, hn047, hn092⟩, hb, fun l sk d rest hd => ?_⟩
+  obtain ⟨sk', hsk, h⟩ := attr_select_typed_sev env strict a n hty hder hcfg sd hsd m n0 ns hn0 hns hfind tok av .warning hleaf
+    sA sB hsA hsB l sk after ha d rest hd
+  exact ⟨sk', hsk, by simpa [List.append_assoc] using h⟩
+
+/-- the value of an INTEGER member that starts like no integer (re-export of `LeafRdS.integer_junk`) -/
+theorem C03_wrong_kind_in_integer_select_member_detected {F} (env : Env F) (m : SelMember) (hm : m.ty = .integer)
+    (j0 : Byte) (js : List Byte) (hj0s : isSpace j0 = false) (hj047 : j0 ≠ 47)
+    (hj0d : isDigit j0 = false) (hj043 : j0 ≠ 43) (hj045 : j0 ≠ 45)
+    (hj : ∀ b ∈ j0 :: js, delimAt env.lex attrDelims b = false)
+    (hsemi : env.lex.criStopsAtSemicolon = true → ∀ b ∈ j0 :: js, b ≠ 59) :
+    LeafRdS env m (j0 :: js) .unset .warning :=
+  LeafRdS.integer_junk env m hm j0 js hj0s hj047 hj0d hj043 hj045 hj hsemi
 
 /-- tie: the source keeps what `CheckRemainingInput` reports behind a `$` (C09's repair is in) -/
 theorem C03_source_dollar_keeps_error : Generated.rwLexCfg.dollarKeepsError = true := by decide
